@@ -54,3 +54,135 @@ def FExpr.eval : FExpr → Float32
   | .mul a b => a.eval * b.eval
   | .div a b => a.eval / b.eval
 end Sema.Go
+
+/-! ### primitives of the extended translator (tools/go2lean/ext.go)
+
+Go `int` / `int64` are `Int` there (sums are assumed not to overflow), `uint64` is `BitVec 64`,
+`string` is `String`, slices are lists (value semantics: the translator rejects visible aliasing),
+maps are insertion-ordered association lists without duplicate keys, a run-time panic (index out
+of range) is not modelled: reads past the end give the zero value, writes past the end do nothing. -/
+namespace Sema.Go
+
+/-- result of a translated function that contains a loop with an exit: its value, or the fuel of a
+`for` loop ran out (the Go loop would still be running) -/
+inductive Out (ρ : Type) where
+  | ret (r : ρ)
+  | outOfFuel
+  deriving Repr, DecidableEq
+
+/-- result of one translated loop: it ended (condition false, or `break`) with loop state `s`;
+a `return r` was executed inside; the fuel ran out -/
+inductive Ctl (σ ρ : Type) where
+  | next (s : σ)
+  | ret (r : ρ)
+  | outOfFuel
+  deriving Repr, DecidableEq
+
+/-- the statements after a loop that is itself inside a loop -/
+def Ctl.andThen {σ τ ρ : Type} (c : Ctl σ ρ) (k : σ → Ctl τ ρ) : Ctl τ ρ :=
+  match c with
+  | .next s => k s
+  | .ret r => .ret r
+  | .outOfFuel => .outOfFuel
+
+/-- the statements after a loop at the top level of a function -/
+def Ctl.finish {σ ρ : Type} (c : Ctl σ ρ) (k : σ → Out ρ) : Out ρ :=
+  match c with
+  | .next s => k s
+  | .ret r => .ret r
+  | .outOfFuel => .outOfFuel
+
+/-- `len(xs)` as a Go `int` -/
+def len {α : Type} (xs : List α) : Int := xs.length
+/-- `xs[i]` (Go panics outside `0 ≤ i < len`; here: the zero value) -/
+def getI {α : Type} [Inhabited α] (xs : List α) (i : Int) : α := if i < 0 then default else xs.getD i.toNat default
+/-- `xs[i] = v` -/
+def setI {α : Type} (xs : List α) (i : Int) (v : α) : List α := if i < 0 then xs else xs.set i.toNat v
+/-- `xs[lo:]` -/
+def sliceFromI {α : Type} (xs : List α) (lo : Int) : List α := xs.drop lo.toNat
+/-- `xs[lo:hi]` -/
+def sliceI {α : Type} (xs : List α) (lo hi : Int) : List α := (xs.take hi.toNat).drop lo.toNat
+
+/-- `m[k] = v` -/
+def mapSet {κ ν : Type} [BEq κ] : List (κ × ν) → κ → ν → List (κ × ν)
+  | [], k, v => [(k, v)]
+  | (k', v') :: rest, k, v => if k' == k then (k, v) :: rest else (k', v') :: mapSet rest k v
+/-- `v, ok := m[k]` -/
+def mapGet? {κ ν : Type} [BEq κ] : List (κ × ν) → κ → Option ν
+  | [], _ => none
+  | (k', v) :: rest, k => if k' == k then some v else mapGet? rest k
+/-- `m[k]` (zero value `z` when absent) -/
+def mapGetD {κ ν : Type} [BEq κ] (m : List (κ × ν)) (k : κ) (z : ν) : ν := (mapGet? m k).getD z
+
+/-- `bytes.Compare` -/
+def bytesCompare (a b : Bytes) : Int := if lexLt a b then -1 else if lexLt b a then 1 else 0
+
+/-- fuel of a counting loop `for ; i < n; i++` whose body assigns neither `i` nor anything `n` reads -/
+def countFuel (i n : Int) : Nat := (n - i).toNat + 1
+
+end Sema.Go
+
+namespace Sema.Go
+/-- the loop of `slices.BinarySearchFunc`:
+`for i < j { h := int(uint(i+j) >> 1); if cmp(x[h], target) < 0 { i = h + 1 } else { j = h } }`
+(`j - i` at least halves per iteration, so `len(x)` iterations are enough) -/
+def bsLoop {α τ : Type} [Inhabited α] (x : List α) (target : τ) (cmp : α → τ → Int) : Nat → Int → Int → Int
+  | 0, i, _ => i
+  | fuel + 1, i, j =>
+    if i < j then
+      let h := (i + j) / 2
+      if cmp (getI x h) target < 0 then bsLoop x target cmp fuel (h + 1) j else bsLoop x target cmp fuel i h
+    else i
+
+/-- `slices.BinarySearchFunc(x, target, cmp)`: `n := len(x); i, j := 0, n; <loop>;
+return i, i < n && cmp(x[i], target) == 0` -/
+def binarySearchFunc {α τ : Type} [Inhabited α] (x : List α) (target : τ) (cmp : α → τ → Int) : Int × Bool :=
+  let n := len x
+  let i := bsLoop x target cmp x.length 0 n
+  (i, decide (i < n) && cmp (getI x i) target == 0)
+end Sema.Go
+
+namespace Sema.Go
+/-- a Go interface value (`any`) as far as the translated code can look into it: nil, a
+`map[string]any`, or any other dynamic value (of an abstract type `α`) -/
+inductive Any (α : Type) where
+  | nil
+  | map (m : List (String × Any α))
+  | val (a : α)
+
+/-- result of a `for … range` loop with an exit (structural recursion, no fuel): it ended
+(list exhausted, or `break`) with state `s`, or a `return r` was executed inside -/
+inductive Brk (σ ρ : Type) where
+  | next (s : σ)
+  | ret (r : ρ)
+
+/-- statements after a range loop that is itself inside a range loop -/
+def Brk.andThen {σ τ ρ : Type} (c : Brk σ ρ) (k : σ → Brk τ ρ) : Brk τ ρ :=
+  match c with
+  | .next s => k s
+  | .ret r => .ret r
+/-- statements after a range loop at the top of a function (or closure) without `for` loops -/
+def Brk.finish {σ ρ : Type} (c : Brk σ ρ) (k : σ → ρ) : ρ :=
+  match c with
+  | .next s => k s
+  | .ret r => r
+/-- statements after a range loop inside a `for` loop -/
+def Brk.andThenCtl {σ τ ρ : Type} (c : Brk σ ρ) (k : σ → Ctl τ ρ) : Ctl τ ρ :=
+  match c with
+  | .next s => k s
+  | .ret r => .ret r
+/-- statements after a range loop at the top of a function that also has `for` loops -/
+def Brk.finishOut {σ ρ : Type} (c : Brk σ ρ) (k : σ → Out ρ) : Out ρ :=
+  match c with
+  | .next s => k s
+  | .ret r => .ret r
+
+/-- `strings.Split(s, sep)` for a non-empty literal `sep` -/
+def strSplit (s sep : String) : List String := s.splitOn sep
+end Sema.Go
+
+namespace Sema.Go
+/-- Go `int` / `int64` results of `+`, `-`, `*` on a 64-bit platform (two's complement wrap), used by
+translations with `WrapInt` (no no-overflow assumption there; operands are assumed in range) -/
+def wrap64 (x : Int) : Int := (x + 2 ^ 63) % 2 ^ 64 - 2 ^ 63
+end Sema.Go
